@@ -9,6 +9,7 @@
 -/
 import FileD.Lemmas.Admission
 import FileD.Lemmas.Antispam
+import FileD.Lemmas.MatchRule
 namespace FileD.PropsC20
 open FileD FileD.Admission FileD.SpecC20
 
@@ -242,6 +243,67 @@ theorem exception_never_drops_in (s : Settings) (decode : Bytes → Option JTree
   have := (refused_only_for_listed_reasons s decode st st' r _ hm h).2
   rw [exception_never_drops s.as st _ hr (by simpa [spamEv] using hx)] at this
   cases this
+
+/-! ### what "an exception matches" means: cfg/matchrule -/
+
+section MR
+open FileD.MatchRule
+
+/-- **matchrule is literal**: `(*Rule).Match` with its `minValueSize` early return and its cut to
+    `maxValueSize` answers exactly "some configured value is a prefix / suffix / substring of the
+    data" (xor `invert`) — for every rule with at least one value, every data, every mix of value
+    lengths. Case-insensitive rules: for every lowering function that keeps the length of this data
+    and commutes with the two cuts (`bytes.ToLower` on ASCII data). -/
+theorem matchrule_literal (lower : Bytes → Bytes) (r : Rule) (raw : Bytes) (hv : r.values ≠ [])
+    (hn : r.ci = false ∨ LowerNice lower raw (maxLen (prepared lower r))) :
+    ruleMatch lower r raw = .ok (specRule lower r raw) :=
+  ruleMatch_eq lower r raw hv hn
+
+/-- values of different lengths, data shorter than the longest value: prefix [payments-service, api]
+    ("payments-service", "api" as bytes) matches "api-gw" -/
+example : ruleMatch id ⟨[[112, 97, 121, 109, 101, 110, 116, 115, 45, 115, 101, 114, 118, 105, 99, 101], [97, 112, 105]], .pre, false, false⟩ [97, 112, 105, 45, 103, 119] = .ok true := by
+  rw [matchrule_literal id _ _ (by simp) (Or.inl rfl)]
+  exact congrArg _ (by decide)
+
+/-- `(*RuleSet).Match` = the rule set has rules and all (`and`) / some (`or`) of them match literally -/
+theorem ruleset_literal (lower : Bytes → Bytes) (isOr : Bool) (rules : List Rule) (raw : Bytes)
+    (h : ∀ r ∈ rules, RuleOK lower raw r) :
+    rsMatch lower isOr rules raw = .ok (specRuleSet lower isOr rules raw) :=
+  rsMatch_eq lower isOr rules raw h
+
+example : rsMatch id true [⟨[[97, 98], [99]], .suf, false, false⟩, ⟨[[120]], .contains, false, false⟩] [97, 99]
+    = .ok true := by
+  rw [ruleset_literal id _ _ _ (by
+    intro r hr
+    simp only [List.mem_cons, List.not_mem_nil, or_false] at hr
+    rcases hr with hr | hr <;> subst hr <;> exact ⟨by simp, Or.inl rfl⟩)]
+  exact congrArg _ (by decide)
+
+/-- **exception never drops, literal form**: exceptions given as rule sets (`csn` =
+    check_source_name); the results `IsSpam` gets from matchrule are the literal ones
+    (`ruleset_literal`). If some exception's rule set literally matches its check data — the source
+    name for `check_source_name`, else the event bytes — the event is not refused and not counted. -/
+theorem exception_never_drops_literal (lower : Bytes → Bytes) (cfg : Cfg) (st : State) (e : Ev)
+    (xs : List (Bool × Bool × List Rule)) (event name : Bytes)
+    (hr : cfg.rulesNil = true) (hc : cfg.excs = xs.map (·.1))
+    (hm : e.excM = xs.map (fun x => (specRuleSet lower x.2.1 x.2.2 event, specRuleSet lower x.2.1 x.2.2 name)))
+    (hx : ∃ x ∈ xs, specRuleSet lower x.2.1 x.2.2 (if x.1 then name else event) = true) :
+    isSpam cfg st e = (false, st) := by
+  apply exception_never_drops cfg st e hr
+  rw [hc, hm, excHit_map, List.any_eq_true]
+  obtain ⟨x, hx1, hx2⟩ := hx
+  refine ⟨x, hx1, ?_⟩
+  cases hcs : x.1 <;> simp [hcs] at hx2 ⊢ <;> exact hx2
+
+/-- the seeded-change shape: check_source_name exception prefix [payments-service, api], source
+    "api-gw", source already at counter 9 ≥ threshold 3: still not refused -/
+example : isSpam ⟨3, 2, 1000, true, [true], []⟩ (init.set [49] ⟨9, 0, 3⟩)
+      ⟨[49], false, 5, [(false, true)], []⟩ = (false, init.set [49] ⟨9, 0, 3⟩) :=
+  exception_never_drops_literal id _ _ _
+    [(true, true, [⟨[[112, 97, 121, 109, 101, 110, 116, 115, 45, 115, 101, 114, 118, 105, 99, 101], [97, 112, 105]], .pre, false, false⟩])] [123, 125] [97, 112, 105, 45, 103, 119]
+    rfl rfl (by decide) ⟨_, List.mem_singleton.mpr rfl, by decide⟩
+
+end MR
 
 /-- **ban needs threshold**. Fresh antispammer, any history: `hist = some pre` means the ops so far
     are `pre`, then a maintenance round, then `suf` (no maintenance in `suf`); `hist = none` means no
